@@ -146,3 +146,42 @@ fn chunk_limit<const N: usize>(spec: &Value) -> Result<Option<String>, String> {
         Ok(None)
     }
 }
+
+/// entry `eih_chain`: identity headers the real client encoder emits for a chain of identity keys, against an independent
+/// computation (BLAKE3 derive_key / hash from the blake3 crate, one AES-ECB block)
+pub fn eih_chain(spec: &Value) -> Result<Option<String>, String> {
+    if spec["N"].as_u64() == Some(16) { eih::<16>(spec) } else { eih::<32>(spec) }
+}
+
+fn eih<const N: usize>(spec: &Value) -> Result<Option<String>, String> {
+    let kind = kind_of(spec["kind"].as_str().unwrap_or(""))?;
+    let nkeys = spec["nkeys"].as_u64().unwrap_or(1) as usize;
+    let key = [0x11u8; N];
+    let iks: Vec<[u8; N]> = (0..nkeys).map(|i| [0x21u8 + i as u8; N]).collect();
+    let context = sstcp::Context::<N>::new(key, iks.clone(), kind, None);
+    let identity = sstcp::Identity::<N>::default();
+    let salt = identity.salt;
+    let session = sstcp::Session::<N>::new(Mode::Client, identity, Some(Address::Socket("1.2.3.4:80".parse().unwrap())));
+    let mut codec = sstcp::AEADCipherCodec::<N>::default();
+    let mut wire = BytesMut::new();
+    codec.encode(&context, &session, BytesMut::from(&b"x"[..]), &mut wire).map_err(|e| e.to_string())?;
+    let mut chain: Vec<[u8; N]> = iks.clone();
+    chain.push(key);
+    for i in 0..nkeys {
+        let mut material = chain[i].to_vec();
+        material.extend_from_slice(&salt);
+        let sub_key = blake3::derive_key("shadowsocks 2022 identity subkey", &material);
+        let mut block = [0u8; 16];
+        block.copy_from_slice(&blake3::hash(&chain[i + 1]).as_bytes()[..16]);
+        if N == 16 {
+            octo_squirrel::crypto::Aes128EcbNoPadding::encrypt(&sub_key, &mut block, 16);
+        } else {
+            octo_squirrel::crypto::Aes256EcbNoPadding::encrypt(&sub_key, &mut block, 16);
+        }
+        let at = N + 16 * i;
+        if wire.len() < at + 16 || wire[at..at + 16] != block {
+            return Ok(Some(format!("identity header {i} of a chain of {nkeys} identity keys differs from AES-ECB(identity subkey of key {i}, BLAKE3(key {})[..16])", i + 1)));
+        }
+    }
+    Ok(None)
+}
